@@ -530,7 +530,7 @@ class LeafBranches(Job):
             body = branches.get(key)
             shape_ok = (body is not None and len(body) == 3 and isinstance(body[0], ast.Assign) and len(body[0].targets) == 1 and isinstance(body[0].targets[0], ast.Name)
                         and isinstance(body[0].value, ast.Constant) and isinstance(body[1], ast.For) and isinstance(body[1].target, ast.Name)
-                        and ast.unparse(body[1].iter) == "f.args" and not body[1].orelse and len(body[1].body) == 1 and isinstance(body[1].body[0], ast.AugAssign)
+                        and ast.unparse(body[1].iter) == f"{fn.args.args[0].arg}.args" and not body[1].orelse and len(body[1].body) == 1 and isinstance(body[1].body[0], ast.AugAssign)
                         and isinstance(body[2], ast.Return))
             if shape_ok:
                 acc, loopvar, aug = body[0].targets[0].id, body[1].target.id, body[1].body[0]
@@ -594,26 +594,95 @@ class LeafBranches(Job):
             R.append(self.prove(name + " [outer loop: preservation]", base + [rows_done(Mx, i), row_part(Mx, i, c_)], rows_done(Mx, i + 1)))
             R.append(self.prove(name + " [exit: every entry is its converted entry]", [r_ >= 0, c_ >= 0, rows_done(Mx, r_)],
                                 z3.ForAll([a_, b_], z3.Implies(z3.And(a_ >= 0, a_ < r_, b_ >= 0, b_ < c_), Mx[a_][b_] == ve(a_, b_)))))
-        # Rational: prs(numerator) / prs(denominator)
-        e = ret_expr(branches.get("sympy.core.numbers.Rational", []))
-        ok = e is not None and ast.unparse(e) in ("prs(f.numerator) / prs(f.denominator)", "prs(f.p) / prs(f.q)")
-        R.append(Result(self.id, "sympy_to_casadi: Rational leaf = converted numerator / converted denominator", PROVED if ok else REFUTED, "AST", "", 0.0,
-                        ast.unparse(e) if e is not None else "missing", None if ok else {"inputs": {}}, 1))
-        # compositionality: every recursive call is on a component of the node itself
-        allowed = {"arg", "f.args[0]", "base", "power", "f[i, j]", "f.numerator", "f.denominator", "symbol", "subexpr", "cse_exprs[0]", "f"}
+        # Rational: converted numerator / converted denominator, by symbolic execution of the (straight-line) branch:
+        # prs(f.numerator | f.p) and prs(f.denominator | f.q) are the integers p, q (induction hypothesis: Integer / int leaves)
+        name = "sympy_to_casadi: Rational leaf p/q converts to p / q (for every rational; branch executed symbolically)"
+        zp, zq = z3.Int("p"), z3.Int("q")
+
+        def trq(e, env):
+            if isinstance(e, ast.Name) and e.id in env:
+                return env[e.id]
+            if isinstance(e, ast.Constant) and isinstance(e.value, (int, float)):
+                return z3.RealVal(str(Fraction(e.value)))
+            if isinstance(e, ast.UnaryOp) and isinstance(e.op, ast.USub):
+                return -trq(e.operand, env)
+            if isinstance(e, ast.BinOp) and type(e.op) in (ast.Add, ast.Sub, ast.Mult, ast.Div):
+                a_, b_ = trq(e.left, env), trq(e.right, env)
+                return {ast.Add: lambda: a_ + b_, ast.Sub: lambda: a_ - b_, ast.Mult: lambda: a_ * b_, ast.Div: lambda: a_ / b_}[type(e.op)]()
+            if isinstance(e, ast.Call) and isinstance(e.func, ast.Name) and e.func.id == "prs" and len(e.args) == 1:
+                t = ast.unparse(e.args[0])
+                if t in (f"{pname0}.numerator", f"{pname0}.p"):
+                    return z3.ToReal(zp)
+                if t in (f"{pname0}.denominator", f"{pname0}.q"):
+                    return z3.ToReal(zq)
+            raise NoSem(ast.unparse(e))
+
+        pname0 = fn.args.args[0].arg
+        try:
+            env, ret = {}, None
+            for st in branches.get("sympy.core.numbers.Rational", []):
+                if isinstance(st, ast.Assign) and len(st.targets) == 1 and isinstance(st.targets[0], ast.Name):
+                    env[st.targets[0].id] = trq(st.value, env)
+                elif isinstance(st, ast.Return):
+                    ret = trq(st.value, env)
+                    break
+                else:
+                    raise NoSem(ast.unparse(st))
+            if ret is None:
+                raise NoSem("no return")
+
+            def replay_q(model):
+                pv, qv = mval(model, zp), mval(model, zq)
+                pv, qv = int(pv if pv is not None else 3), int(qv if qv else 7)
+                if qv <= 0:
+                    return None
+                out, _ = symbolic.sympy_to_casadi(sympy.Rational(pv, qv) + sympy.Symbol("x") * 0, symbols={})
+                val = float(ca.SX(out)) if ca.SX(out).is_constant() else None
+                return {"inputs": {"p": pv, "q": qv}, "converted": val} if val is None or abs(val - pv / qv) > 1e-15 * (1 + abs(pv / qv)) else None
+
+            R.append(self.prove(name, [zq > 0], ret == z3.ToReal(zp) / z3.ToReal(zq), replay_q))
+        except NoSem as ex:
+            R.append(Result(self.id, name, UNDECIDED, "AST", "", 0.0, f"branch outside the straight-line subset: {ex} (the concrete Rational cases are decided by the constructor obligations)"))
+        # compositionality: every recursive call is on a value DERIVED FROM the node itself (data flow, not names):
+        # derived = the parameter; targets of assignments / loops whose source is derived; attributes, subscripts and calls on
+        # derived values.  A recursion on anything else (the symbol table, f_dict, a constant) is refuted.
+        pname = fn.args.args[0].arg
+        derived = {pname}
+
+        def is_derived(e):
+            if isinstance(e, ast.Name):
+                return e.id in derived
+            if isinstance(e, (ast.Attribute, ast.Subscript, ast.Starred)):
+                return is_derived(e.value)
+            if isinstance(e, ast.Call):
+                return any(is_derived(a_) for a_ in e.args) or (isinstance(e.func, ast.Attribute) and is_derived(e.func.value))
+            if isinstance(e, (ast.Tuple, ast.List)):
+                return any(is_derived(x) for x in e.elts)
+            return False
+
+        def bind(t):
+            for nm in ast.walk(t):
+                if isinstance(nm, ast.Name):
+                    derived.add(nm.id)
+
+        for _ in range(3):  # to a fixed point (the function is short)
+            for node in ast.walk(fn):
+                if isinstance(node, ast.Assign) and is_derived(node.value):
+                    for t in node.targets:
+                        if not isinstance(t, ast.Subscript):
+                            bind(t)
+                elif isinstance(node, ast.For) and is_derived(node.iter):
+                    bind(node.target)
         bad = []
         n_calls = 0
         for node in ast.walk(fn):
             if isinstance(node, ast.Call) and isinstance(node.func, ast.Name) and node.func.id == "prs":
                 n_calls += 1
-                a = ast.unparse(node.args[0])
-                if a not in allowed:
-                    bad.append(a)
-        loops_ok = all(ast.unparse(n.iter) in ("f.args", "range(f.shape[0])", "range(f.shape[1])", "reversed(cse_defs)", "ca_cse_defs.items()", "range(len(dict_keys))")
-                       for n in ast.walk(fn) if isinstance(n, ast.For))
-        ok = not bad and loops_ok and n_calls >= 10
-        R.append(Result(self.id, "sympy_to_casadi: every branch recurses only on the node's own arguments (compositionality; Add/Mul iterate over all of f.args)",
-                        PROVED if ok else REFUTED, "AST", "", 0.0, f"{n_calls} recursive calls; foreign arguments {bad}; loops ok {loops_ok}", None if ok else {"inputs": {}}, 1))
+                if not (len(node.args) == 1 and is_derived(node.args[0])):
+                    bad.append(ast.unparse(node))
+        ok = not bad and n_calls >= 10
+        R.append(Result(self.id, "sympy_to_casadi: every branch recurses only on values derived from the node itself (compositionality, by data flow over the ast)",
+                        PROVED if ok else REFUTED, "AST", "", 0.0, f"{n_calls} recursive calls; recursion on foreign values {bad}", None if ok else {"inputs": {}}, 1))
         return R
 
 
